@@ -1456,6 +1456,23 @@ class Interp:
                     elif node.func.attr == "setdefault" and len(node.args) == 2:
                         kts.add(self.guess_type(node.args[0], m, cd, attr))
                         vts.add(self.guess_type(node.args[1], m, cd, attr))
+        # an empty container stored as value (`self.<attr>[k] = acc = set()`): its element type comes from what the same
+        # method adds through the other names of that object
+        for m in cd.methods.values():
+            for node in ast.walk(m.node):
+                if isinstance(node, ast.Assign) and any(isinstance(tg, ast.Subscript) and is_field(tg.value) for tg in node.targets):
+                    ek = self.empty_container_kind(node.value)
+                    if ek is None:
+                        continue
+                    names = {tg.id for tg in node.targets if isinstance(tg, ast.Name)}
+                    ets = set()
+                    for n2 in ast.walk(m.node):
+                        if isinstance(n2, ast.Call) and isinstance(n2.func, ast.Attribute) and isinstance(n2.func.value, ast.Name) \
+                                and n2.func.value.id in names and n2.func.attr in ("add", "append", "appendleft") and len(n2.args) == 1:
+                            ets.add(self.guess_type(n2.args[0], m, cd, attr))
+                    if len(ets) == 1 and None not in ets and ek != "dict":
+                        vts.discard(None)
+                        vts.add(f"{ek}[{next(iter(ets))}]")
         if None in kts or None in vts or len(vts) != 1:
             return None
         vt = next(iter(vts))
@@ -1465,9 +1482,45 @@ class Interp:
             return f"dict[{next(iter(kts))},{vt}]"
         return f"{kind}[{vt}]"
 
+    @staticmethod
+    def empty_container_kind(e):
+        if isinstance(e, ast.Dict) and not e.keys:
+            return "dict"
+        if isinstance(e, ast.List) and not e.elts:
+            return "seq"
+        if isinstance(e, ast.Call) and not e.args and not e.keywords and isinstance(e.func, ast.Name) \
+                and e.func.id in ("dict", "list", "set", "deque"):
+            return {"dict": "dict", "list": "seq", "set": "set", "deque": "seq"}[e.func.id]
+        return None
+
     def guess_type(self, e, m, cd, attr, depth=0):
-        if depth > 4:
+        if depth > 6:
             return None
+        if isinstance(e, ast.Call) and isinstance(e.func, ast.Attribute) and not (
+                isinstance(e.func.value, ast.Name) and e.func.value.id == "self"):
+            # methods of str / bytes whose result type does not depend on the arguments
+            if e.func.attr in ("count", "find", "rfind", "index", "rindex"):
+                return "int"
+            if e.func.attr in ("lower", "upper", "strip", "lstrip", "rstrip", "replace", "join", "format"):
+                rt = self.guess_type(e.func.value, m, cd, attr, depth + 1)
+                return rt if rt in ("str", "bytes") else None
+            if e.func.attr in ("startswith", "endswith", "isdigit"):
+                return "bool"
+        if isinstance(e, ast.Subscript):
+            # s[a:b] and s.split(sep)[k] of a str are str
+            if isinstance(e.value, ast.Call) and isinstance(e.value.func, ast.Attribute) and e.value.func.attr in ("split", "rsplit") \
+                    and not isinstance(e.slice, ast.Slice):
+                rt = self.guess_type(e.value.func.value, m, cd, attr, depth + 1)
+                return rt if rt in ("str", "bytes") else None
+            rt = self.guess_type(e.value, m, cd, attr, depth + 1)
+            if rt == "str" or (rt == "bytes" and isinstance(e.slice, ast.Slice)):
+                return rt
+            return None
+        if isinstance(e, ast.BinOp) and isinstance(e.op, ast.Add):
+            a, b = self.guess_type(e.left, m, cd, attr, depth + 1), self.guess_type(e.right, m, cd, attr, depth + 1)
+            # str + x is a str or a TypeError
+            if (a in ("str", "bytes") and b in (a, None)) or (b in ("str", "bytes") and a is None):
+                return a or b
         if isinstance(e, ast.Constant):
             c = e.value
             return "bool" if isinstance(c, bool) else "int" if isinstance(c, int) else "real" if isinstance(c, float) \
